@@ -13,8 +13,10 @@ import (
 	"fmt"
 	"runtime"
 	"runtime/debug"
+	"strings"
 
 	"github.com/csgura/fp"
+	"github.com/csgura/fp/iterator"
 	"github.com/csgura/fp/lazy"
 	"github.com/csgura/fp/list"
 	"verif/mc"
@@ -650,6 +652,157 @@ func sharedBase(x *mc.X) {
 	x.Observe(bi, fmt.Sprint(set), mode, executed, len(c.counters))
 }
 
+// ---------------------------------------------------------------- memoised list cells, head and tail
+
+// listKind builds a lazily produced list with the strict contents listWant; every user
+// computation behind a cell (head thunk, tail thunk, generator, mapped function, iterator
+// pull, recurrence step) counts its executions per cell index through tick(role, index).
+type listKind struct {
+	name  string
+	build func(tick func(role string, i int)) fp.List[int]
+}
+
+var listWant = []int{10, 11, 12}
+
+func listKinds() []listKind {
+	some := func(i int) fp.Option[int] {
+		if i < len(listWant) {
+			return fp.Some(listWant[i])
+		}
+		return fp.None[int]()
+	}
+	gen := func(tick func(string, int), role string) fp.List[int] {
+		return list.Generate(func(i int) fp.Option[int] { tick(role, i); return some(i) })
+	}
+	iter := func(tick func(string, int)) fp.Iterator[int] {
+		i := 0
+		return fp.MakeIterator(func() bool { return i < len(listWant) }, func() int {
+			tick("iterator pull", i)
+			v := listWant[i]
+			i++
+			return v
+		})
+	}
+	return []listKind{
+		{"fp.MakeList", func(tick func(string, int)) fp.List[int] {
+			var mk func(i int) fp.List[int]
+			mk = func(i int) fp.List[int] {
+				return fp.MakeList(func() fp.Option[int] { tick("head thunk", i); return some(i) },
+					func() fp.List[int] { tick("tail thunk", i); return mk(i + 1) })
+			}
+			return mk(0)
+		}},
+		{"list.Generate", func(tick func(string, int)) fp.List[int] { return gen(tick, "generator") }},
+		{"list.Map(list.Of)", func(tick func(string, int)) fp.List[int] {
+			return list.Map(list.Of(0, 1, 2), func(v int) int { tick("mapped function", v); return listWant[v] })
+		}},
+		{"list.Map(list.Generate)", func(tick func(string, int)) fp.List[int] {
+			return list.Map(gen(tick, "generator"), func(v int) int { tick("mapped function", v-10); return v })
+		}},
+		{"list.Zip(Generate,Generate)", func(tick func(string, int)) fp.List[int] {
+			z := list.Zip(gen(tick, "left generator"), gen(tick, "right generator"))
+			return list.Map(z, func(t fp.Tuple2[int, int]) int { tick("mapped function", t.I1-10); return (t.I1 + t.I2) / 2 })
+		}},
+		{"list.Recurrence1", func(tick func(string, int)) fp.List[int] {
+			// infinite: 10, 11, 12, 13 ...; only the first cells are inspected
+			return list.Recurrence1(10, func(a int) int { tick("recurrence step", a-10); return a + 1 })
+		}},
+		{"iterator.ToList", func(tick func(string, int)) fp.List[int] { return iterator.ToList(iter(tick)) }},
+		{"list.Collect", func(tick func(string, int)) fp.List[int] { return list.Collect(iter(tick)) }},
+		{"list.FromSeq", func(tick func(string, int)) fp.List[int] { return list.FromSeq(fp.Seq[int]{10, 11, 12}) }},
+	}
+}
+
+var cellOps = []string{"IsEmpty", "Head", "Tail"}
+
+// listCells: every sequence of IsEmpty / Head / Tail on the cells 0..2 of a lazily produced
+// list (Tail(i) yields cell i+1; a cell can be asked again). Values must be those of the
+// strict list, and no computation behind a cell runs twice, in whatever order head and tail
+// of the same cell are forced.
+func listCells(steps int) func(x *mc.X) {
+	kinds := listKinds()
+	return func(x *mc.X) {
+		k := kinds[x.Choose(len(kinds), "list")]
+		counts := map[string]int{}
+		var order []string
+		tick := func(role string, i int) {
+			x.Tick()
+			key := fmt.Sprintf("%s of cell %d", role, i)
+			if counts[key] == 0 {
+				order = append(order, key)
+			}
+			counts[key]++
+		}
+		var cells []fp.List[int]
+		if p := mc.Catch(func() { cells = append(cells, k.build(tick)) }); p != nil {
+			x.Fail(k.name+"/panic", "%s: building the list panicked: %v", k.name, p)
+		}
+		x.Logf("%s, strict contents %v (list.Recurrence1: a prefix)", k.name, listWant)
+		headAndTail := map[int]int{}
+		for s := 0; s < steps; s++ {
+			avail := len(cells)
+			if avail > 3 {
+				avail = 3
+			}
+			c := x.Choose(len(cellOps)*avail, "operation x cell")
+			op, i := cellOps[c%len(cellOps)], c/len(cellOps)
+			empty := i >= len(listWant) && k.name != "list.Recurrence1"
+			if op == "Head" && empty {
+				op = "IsEmpty" // Head of the end of the list panics by contract
+			}
+			var pv any
+			switch op {
+			case "IsEmpty":
+				var got bool
+				pv = mc.Catch(func() { got = cells[i].IsEmpty() })
+				x.Logf("cell %d .IsEmpty() = %v", i, got)
+				if pv == nil && got != empty {
+					x.Fail(k.name+"/wrong-value", "%s: cell %d .IsEmpty() = %v, the strict list %v says %v", k.name, i, got, listWant, empty)
+				}
+				headAndTail[i] |= 1
+			case "Head":
+				var got int
+				pv = mc.Catch(func() { got = cells[i].Head() })
+				x.Logf("cell %d .Head() = %d", i, got)
+				if pv == nil && got != 10+i {
+					x.Fail(k.name+"/wrong-value", "%s: cell %d .Head() = %d, the strict list has %d", k.name, i, got, 10+i)
+				}
+				headAndTail[i] |= 1
+			case "Tail":
+				var got fp.List[int]
+				pv = mc.Catch(func() { got = cells[i].Tail() })
+				x.Logf("cell %d .Tail()", i)
+				if pv == nil && i+1 == len(cells) {
+					cells = append(cells, got)
+				}
+				headAndTail[i] |= 2
+			}
+			if pv != nil {
+				x.Fail(k.name+"/panic", "%s: cell %d .%s() panicked: %v", k.name, i, op, pv)
+			}
+		}
+		x.Tag("list=" + k.name)
+		both := false
+		for _, m := range headAndTail {
+			if m == 3 {
+				both = true
+			}
+		}
+		if both {
+			x.Tag("list/head-and-tail-of-one-cell-forced")
+			x.NonTrivial()
+		}
+		for _, key := range order {
+			x.Logf("%s: executed %d times", key, counts[key])
+			if counts[key] > 1 {
+				role := key[:strings.Index(key, " of cell")]
+				x.Fail(k.name+"/"+strings.ReplaceAll(role, " ", "-")+"-ran-twice", "%s: the %s was executed %d times (a memoised list cell runs its computation at most once, whichever of head and tail is forced first)", k.name, key, counts[key])
+			}
+		}
+		x.Observe(k.name, fmt.Sprint(order), len(cells))
+	}
+}
+
 type boom struct{ n int }
 
 // panicMode: 0 = the thunk panics on its first execution only, 1 = on every execution.
@@ -1106,6 +1259,7 @@ func main() {
 	mc.Main("C16", func(r *mc.Registry) {
 		r.Rule = "eval/*: every expression tree with at most N nodes over {Done 1|2, Call ->3, the zero value Eval[int]{} (= 0), Done(arg) under a FlatMap binder, TailCall, TailCall2, Map f, FlatMap, Map2 g} x Get called 0..3 times x (methods | package functions); non-trivial = demanded and at least two nodes, or a thunk demanded at least twice; distinct = (program, gets, value, thunk executions). " +
 			"stack/*: variant x every depth 0..2000, and variant x ladder rung; call frames sampled inside the recursive function at steps 0..3, powers of two and every 128th (ladder: 65536th) step. " +
+			"eval/list-cells: lazily produced list in {fp.MakeList, list.Generate, list.Map over a strict and over a generated list, list.Zip, list.Recurrence1, iterator.ToList, list.Collect, list.FromSeq} x every sequence of 4 (thorough 5) operations IsEmpty/Head/Tail on the cells 0..2 reached so far; values against the strict list, every head thunk / tail thunk / generator / mapped function / iterator pull / recurrence step at most once per cell; non-trivial = head and tail of one cell both forced. " +
 			"eval/zero-value: Eval[int]{} as receiver/argument of Get, Run, Resume, Map, FlatMap, Map2 and as the result of FlatMap continuations and TailCall/TailCall1 thunks, evaluated 1..2 times; the stack scenarios include loops whose base case is Eval[int]{}. " +
 			"eval/shared-base: (start in {Done, Call, TailCall, Map2, Eval{}} x bind pattern in {Map, FlatMap->Done, Map2(base,_), Map2(_,base), mixed, FlatMap->Call|TailCall} x 0..12 binds) = one shared base Eval value x (every ordered pair of 8 different extensions through Map/FlatMap/Map2 (one returns Eval{}), and 8 triples) x 5 build/evaluation orders; every derived program is compared with strict evaluation, every thunk incl. those of the shared base runs <= 1 time. " +
 			"eval/panicking-thunk: deferred-computation kind x (thunk panics on its first execution only | on every execution) x 3..4 requests, each under recover; conc-panic/*: the same thunks (panic after a scheduling point) demanded by 2 threads 1..2 times each, every interleaving. Only the execution count (<= 1) is judged there. " +
@@ -1132,6 +1286,13 @@ func main() {
 		sc.SplitDepth = 2
 		sc.Shard = true
 		r.Seq("eval/zero-value", zeroValue)
+		cellSteps := 4
+		if r.Thorough() {
+			cellSteps = 5
+		}
+		sc = r.Seq("eval/list-cells", listCells(cellSteps))
+		sc.SplitDepth = 2
+		sc.Shard = true
 		r.Seq("eval/memoize-sequential", seqOnce)
 		r.Seq("eval/panicking-thunk", seqPanic)
 
